@@ -255,7 +255,11 @@ func discharge(groups []*Group, workDir string, timeout int, confirm bool, worke
 		go func(j job) {
 			defer wg.Done()
 			defer func() { <-sem }()
-			v, s, out, secs, conf, dis := race2(j.query, j.file, j.fileB, timeout, confirm)
+			t1 := timeout
+			if len(groups[j.i].Obls) > 1 && groups[j.i].Kind != "cover" && t1 > 6 {
+				t1 = 6 // undecided groups are retried path by path with the full timeout
+			}
+			v, s, out, secs, conf, dis := race2(j.query, j.file, j.fileB, t1, confirm)
 			r := &Result{Group: groups[j.i], Verdict: v, Solver: s, Seconds: secs, Output: out, File: j.file, Size: j.size, Confirm: conf, Disagree: dis}
 			if v == "sat" {
 				r.Model = parseModel(out, j.names)
